@@ -7,21 +7,30 @@ passes (`emitted` note) and, per document (`jsfc12` rows), the verdicts of the r
 same case the hypotheses and the conclusion of C12_jsonschema_source_validates_emitted_partial (Props/C12.lean) and the
 model-side verdicts.  checks/c12.py calls `run(c)` and turns the result into obligations."""
 import collections
+import re
 from verifkit.core import *
 from verifkit import front_keeps
 
 WITNESS = ("pinnullreq", '(o ("x" null))')
 
 
-def run(c):
-    """returns (Counter, failures: dict kind -> list of payload dicts, witness_ok: bool, error text or None)"""
-    hb, err = build_go("verifharness", "harness", files=front_keeps.FILES, tag="keeps")
+def run(c, only=None, seed=None, docs=None, faults=None):
+    """returns (Counter, failures: dict kind -> list of payload dicts, witness_ok: bool, error text or None);
+       `only` = one case id (replay): lab case f<i>js is regenerated from its index, other ids are pinned / testdata cases"""
+    hb, err = build_go("verifharness", "harness", files=front_keeps.FILES, tag=front_keeps.TAG())
     if hb is None:
         return {}, {}, False, "harness build failed: " + err[-1500:]
     quick = c.tier == "quick"
-    n, docs, faults = (150, 8, 4) if quick else (1200, 10, 6)
+    n, docs0, faults0 = (150, 8, 4) if quick else (1200, 10, 6)
+    docs, faults, seed = docs or docs0, faults or faults0, seed or c.seed
+    extra = {}
+    if only is not None:
+        m = re.match(r"f(\d+)js$", only)
+        extra, n = ({"from": int(m.group(1)), "pinned": 0, "testdata": 0}, 1) if m else ({}, 0)
     try:
-        rows = harness(hb, "c01-front", n=n, docs=docs, faults=faults, seed=c.seed, timeout=3600)
+        rows = harness(hb, "c01-front", n=n, docs=docs, faults=faults, seed=seed, timeout=3600, **extra)
+        if only is not None:
+            rows = [r for r in rows if (r[0] == "-" and only in r[1].split(" ")[1:3]) or (r[0] != "-" and r[0].split(" ")[1] in (only, only + ".fe"))]
     except (RuntimeError, subprocess.TimeoutExpired) as e:
         return {}, {}, False, "c01-front stream failed: " + str(e)[-1500:]
     keep = [r for r in rows if r[0] != "-" and r[0].split(" ")[0] in ("jsfdef", "defschemas", "jsfc12")]
@@ -39,7 +48,7 @@ def run(c):
             if m != "ok":
                 st["bad_replies"] += 1
             continue
-        if not m.startswith("inst="):
+        if not m.startswith("base="):
             st["bad_replies"] += 1
             continue
         d = dict(x.split("=", 1) for x in m.split(" "))
@@ -50,7 +59,8 @@ def run(c):
         def payload(kind, broken):
             return {"kind": kind, "broken": broken, "stream": "c01-front", "case": cid, "document": doc[:4000], "real": r[1], "driver": m,
                     "source_schema": notes[cid].get("schema", ""), "emitted_schema": notes[cid].get("emitted", notes[cid].get("emitted-err", "")),
-                    "how_to_replay": "harness c01-front seed=%d n=%d docs=%d faults=%d, case %s" % (c.seed, n, docs, faults, cid)}
+                    "replay_args": {"only": cid, "seed": seed, "docs": docs, "faults": faults},
+                    "how_to_replay": "./check C12 --replay <this file>  (harness c01-front seed=%d docs=%d faults=%d, case %s)" % (seed, docs, faults, cid)}
         # instance of the theorem on the real front-end IR (pass models, emitter model, codec model)
         if d["inst"] == "true":
             st["inst"] += 1
@@ -59,6 +69,14 @@ def run(c):
             else:
                 bad["instance"].append(payload("source-validates-emitted-instance-fails",
                                                "C12_jsonschema_source_validates_emitted_partial: every hypothesis holds on the REAL front-end IR, the conclusion does not"))
+        # a document valid against the SOURCE schema respects the IR's constraints / constants / enumerations (`satLax`)
+        if d["base"] == "true":
+            st["source_valid_strict"] += 1
+            if d["satlax"] == "true":
+                st["source_valid_respects_ir"] += 1
+            else:
+                bad["respects"].append(payload("source-valid-document-violates-ir",
+                                               "FragJS case, document strictly valid against the SOURCE schema: it violates a constraint / constant / enumeration / required member of the pass models' output of the REAL front-end IR (beyond `null` and `any`, which the known findings explain)"))
         if (cid, doc) == WITNESS:
             witness_ok = (real.get("src") == "true" and real.get("remit") == "false" and d["frag"] == "true" and d["satgap"] == "true"
                           and d["emjs"] == "false")
